@@ -339,7 +339,7 @@ func (e *acceptEngine) observe(fn *ssa.Function, ce ir.CondEdge) (*ssa.Call, boo
 // value of a synthetic edge) and the truth value it has on that edge.
 func condOf(fn *ssa.Function, ce ir.CondEdge) (ssa.Value, bool) {
 	if ce.If != nil {
-		return ce.If.Cond, fn.Blocks[ce.Edge.From].Succs[0].Index == ce.Edge.To
+		return ce.RawCond, ce.RawTruth
 	}
 	return ce.Cond, ce.Truth
 }
